@@ -80,7 +80,7 @@ pub(super) async fn run_connection(
     let access_list_cache = create_access_list_cache(&access_list);
     let request_buffer = Box::new([0u8; REQUEST_BUFFER_SIZE]);
 
-    let mut response_buffer = Box::new([0; RESPONSE_BUFFER_SIZE]);
+    let mut response_buffer = vec![0u8; RESPONSE_BUFFER_SIZE];
 
     response_buffer[..RESPONSE_HEADER.len()].copy_from_slice(&RESPONSE_HEADER);
 
@@ -146,7 +146,7 @@ struct Connection<S> {
     peer_port: u16,
     request_buffer: Box<[u8; REQUEST_BUFFER_SIZE]>,
     request_buffer_position: usize,
-    response_buffer: Box<[u8; RESPONSE_BUFFER_SIZE]>,
+    response_buffer: Vec<u8>,
     stream: S,
     worker_index_string: String,
 }
@@ -397,15 +397,24 @@ where
 
         let mut position = RESPONSE_HEADER.len();
 
-        let body_len = response
-            .write_bytes(&mut &mut self.response_buffer[position..])
-            .map_err(ConnectionError::ResponseBufferWrite)?;
+        let body_len = loop {
+            let body_len = response
+                .write_bytes(&mut &mut self.response_buffer[position..])
+                .map_err(ConnectionError::ResponseBufferWrite)?;
+
+            // Writes into the slice are cut short when it is full. If the body
+            // and the final newline did not fit, grow the buffer and write the
+            // response again.
+            if position + body_len + 2 > self.response_buffer.len() {
+                let new_len = self.response_buffer.len() * 2;
+
+                self.response_buffer.resize(new_len, 0);
+            } else {
+                break body_len;
+            }
+        };
 
         position += body_len;
-
-        if position + 2 > self.response_buffer.len() {
-            return Err(ConnectionError::ResponseBufferFull);
-        }
 
         self.response_buffer[position..position + 2].copy_from_slice(b"\r\n");
 
@@ -437,7 +446,7 @@ where
         // Write buffer to stream
 
         self.stream
-            .write(&self.response_buffer[..position])
+            .write_all(&self.response_buffer[..position])
             .await
             .with_context(|| "write")?;
         self.stream.flush().await.with_context(|| "flush")?;
